@@ -6,7 +6,7 @@ import Asn1Proofs.Lemmas.X690StrictSub
 import Asn1Proofs.Lemmas.X690RefDec
 /-
   C04 completeness of the code's BER decoder (`BerCodec.dec`) with respect to the reference BER
-  decoder of X690.lean, outside the two named deviations (`X690.berDeviates`).
+  decoder of X690.lean, outside the named deviation `dirtyUnusedBits` (`X690.berDeviates`).
 -/
 namespace Asn1.X690
 
